@@ -255,6 +255,8 @@ pub struct StepOut {
 	pub node_log: Vec<String>,
 	pub note: String,
 	pub validated: Option<bool>,
+	/// peak heap growth during the step (bytes)
+	pub peak_alloc: usize,
 }
 
 lazy_static::lazy_static! {
@@ -275,6 +277,28 @@ pub fn install_panic_hook(verbose: bool) {
 			"<non-string panic>".into()
 		};
 		let short: String = msg.chars().take(160).collect();
+		// when the panic fires inside a dependency, name the wallet frame that called it
+		let loc = if !loc.contains("/repo/") && !loc.starts_with("src/") {
+			let bt = format!("{}", std::backtrace::Backtrace::force_capture());
+			let mut caller = None;
+			for l in bt.lines() {
+				let l = l.trim();
+				if let Some(rest) = l.strip_prefix("at ") {
+					if rest.starts_with("/repo/") {
+						let mut parts = rest.rsplitn(2, ':');
+						let _col = parts.next();
+						caller = parts.next().map(|x| x.to_owned());
+						break;
+					}
+				}
+			}
+			match caller {
+				Some(c) => format!("{} (in {})", c, loc.rsplit('/').take(3).collect::<Vec<_>>().into_iter().rev().collect::<Vec<_>>().join("/")),
+				None => loc,
+			}
+		} else {
+			loc
+		};
 		if verbose {
 			eprintln!("[gwsim] panic at {}: {}", loc, short);
 		}
@@ -709,10 +733,12 @@ impl Exec {
 			step.node_fail.map(|x| x.1).unwrap_or(false),
 		);
 		*LAST_PANIC.lock().unwrap() = None;
+		let alloc_base = crate::alloc::begin_step();
 		let res = catch_unwind(AssertUnwindSafe(|| match &step.op {
 			Op::Custom { name, args } => custom(self, name, args),
 			op => self.exec_inner(op),
 		}));
+		let peak_alloc = crate::alloc::end_step(alloc_base);
 		let (visited, fired) = hooks::end_op();
 		let (node_calls, node_log) = self.world.chain.end_op();
 		let mut out = StepOut {
@@ -720,6 +746,7 @@ impl Exec {
 			fault_fired: fired,
 			node_calls,
 			node_log,
+			peak_alloc,
 			..Default::default()
 		};
 		match res {
